@@ -255,21 +255,23 @@ def addCells : List (List Value) → Row → List (List Value)
   | c :: cs, v :: vs => (if isNullV v then c else c ++ [v]) :: addCells cs vs
   | cs, _ => cs
 
-def freshCells (ins : Row) : List (List Value) := ins.map fun v => if isNullV v then [] else [v]
+/-- `make([]Aggregate, n)` / `make([]int, n)`: `n` fresh aggregates with empty sets -/
+def emptyCells (n : Nat) : List (List Value) := List.replicate n []
 
-/-- `aggregates.Get(key)` / `Put` / the updates; the stored key is the one that created the entry -/
-def gUpd (key ins : Row) : List GItem → List GItem
-  | [] => [⟨key, freshCells ins, 1⟩]
+/-- `aggregates.Get(key)` / `Put` of a fresh item / the updates; the stored key is the one that created the
+    entry (`n` = number of aggregates) -/
+def gUpd (n : Nat) (key ins : Row) : List GItem → List GItem
+  | [] => [⟨key, addCells (emptyCells n) ins, 1⟩]
   | it :: rest =>
     if rowEq key it.key then { it with cells := addCells it.cells ins, count := it.count + 1 } :: rest
-    else it :: gUpd key ins rest
+    else it :: gUpd n key ins rest
 
 /-- the record handler over the whole input; `none` = a key / aggregate expression failed -/
 def gFold (keys : List SExpr) (aggs : List PAgg) : List GItem → List Row → Option (List GItem)
   | st, [] => some st
   | st, r :: rs =>
     match evalAll r keys, evalArgs r aggs with
-    | some k, some ins => gFold keys aggs (gUpd k ins st) rs
+    | some k, some ins => gFold keys aggs (gUpd aggs.length k ins st) rs
     | _, _ => none
 
 def histOf (xs : List Value) : Agg.Hist := xs.map fun v => (false, v)
